@@ -6,6 +6,8 @@ import (
 	"fmt"
 	"go/constant"
 	"go/token"
+	"go/types"
+	"reflect"
 	"sort"
 	"strings"
 
@@ -274,7 +276,7 @@ func (c *Ctx) errorPropagates(f *ssa.Function, cv *ssa.Call, ev ssa.Value) (bool
 				}
 				return false
 			case *ssa.UnOp:
-				if g, ok := x.X.(*ssa.Global); ok && strings.HasPrefix(g.Name(), "Err") {
+				if g, ok := x.X.(*ssa.Global); ok && isSentinelErrorVar(g) {
 					continue
 				}
 				return false
@@ -326,6 +328,51 @@ func (c *Ctx) sentinelConversion(f *ssa.Function, cv *ssa.Call, ev ssa.Value, r 
 	}
 	if cb == nil {
 		return false
+	}
+	// form 2: errors.Is(err, sentinel) with a package-level sentinel that the critical section returns only before it commits
+	commitSet := c.commitFuncs()
+	for _, bf := range branchFacts(f) {
+		curEnv = bf.A.Env
+		if bf.A.Kind != "bool" || !bf.Holds {
+			continue
+		}
+		cl, _ := callOf(bf.A.X)
+		if cl == nil || calleeFullName(&cl.Call) != "errors.Is" || len(cl.Call.Args) != 2 || strip(cl.Call.Args[0]) != ev {
+			continue
+		}
+		if !(bf.E.To() == r.Block() || bf.E.To().Dominates(r.Block())) {
+			continue
+		}
+		ld, ok := strip(cl.Call.Args[1]).(*ssa.UnOp)
+		if !ok || ld.Op != token.MUL {
+			continue
+		}
+		g, ok := ld.X.(*ssa.Global)
+		if !ok {
+			continue
+		}
+		returned, afterCommit := false, false
+		for _, uf := range append([]*ssa.Function{cb}, c.unitOf(cb)...) {
+			for _, ret := range returnsOf(uf) {
+				if len(ret.Results) == 0 {
+					continue
+				}
+				rv, ok := strip(returnedValue(ret, len(ret.Results)-1)).(*ssa.UnOp)
+				if !ok || rv.Op != token.MUL || rv.X != ssa.Value(g) {
+					continue
+				}
+				returned = true
+				for _, cc := range callsIn(uf) {
+					if cal := cc.Common().StaticCallee(); cal != nil && commitSet[cal] && canReachInstr(cc, ret) {
+						afterCommit = true
+					}
+				}
+			}
+		}
+		if returned && !afterCommit {
+			curEnv = nil
+			return true
+		}
 	}
 	for _, bf := range branchFacts(f) {
 		curEnv = bf.A.Env
@@ -379,6 +426,32 @@ func (c *Ctx) fieldStoresOfType(f *ssa.Function, typeName string) map[string][]s
 		})
 	}
 	return out
+}
+
+// autoEnv binds the parameters of fn (and, transitively, of its callers) to the arguments of their only static call
+// site: values inside a single-caller helper are then expressed in the frame of the function that uses the helper.
+func (c *Ctx) autoEnv(fn *ssa.Function) env {
+	e := env{}
+	for hops := 0; fn != nil && hops < 4; hops++ {
+		f := fn
+		if f.Parent() != nil {
+			fn = f.Parent()
+			continue
+		}
+		sites := c.callers[f]
+		if len(sites) != 1 || Outermost(sites[0].Fn).Pkg != f.Pkg {
+			break // several callers, or a command entry point called from package main: its parameters are the frame
+		}
+		for i, prm := range f.Params {
+			if i < len(sites[0].Call.Common().Args) {
+				if _, bound := e[prm]; !bound {
+					e[prm] = sites[0].Call.Common().Args[i]
+				}
+			}
+		}
+		fn = sites[0].Fn
+	}
+	return e
 }
 
 func ruleOU3(c *Ctx) {
@@ -468,37 +541,123 @@ func ruleOU3(c *Ctx) {
 			}
 		}
 		var claimEv, stateEv *Emission
+		inSection := map[*ssa.Function]bool{}
+		if cb != nil {
+			inSection[cb] = true
+			for _, g := range c.unitOf(cb) {
+				inSection[g] = true
+			}
+		}
 		for _, em := range ems {
-			if em.Fn == cb && em.has("claim") {
+			if inSection[em.Fn] && em.has("claim") {
 				claimEv = em
 			}
-			if em.Fn == cb && em.has("state") {
+			if inSection[em.Fn] && em.has("state") {
 				stateEv = em
 			}
 		}
 		if cb == nil || claimEv == nil || stateEv == nil {
 			c.bad(c.Name(rco), "claim-reply", c.FnPos(rco), "claim callback or its claim/state events not found")
 		} else {
-			reply := map[string]ssa.Value{}
-			eachInstr(rco, func(r instrRef) {
-				if mu, ok := r.In.(*ssa.MapUpdate); ok {
-					if k, ok := constString(mu.Key); ok {
-						if _, isMI := mu.Value.(*ssa.MakeInterface); isMI {
-							reply[k] = mu.Value
+			// the reply: a map with constant keys, or a struct with json tags, built in the command or a helper of its own
+			type rv struct {
+				v ssa.Value
+				e env
+			}
+			reply := map[string]rv{}
+			wj := c.F.Anchors["writeJSON"]
+			var gather func(v ssa.Value, e env, d int)
+			gather = func(v ssa.Value, e env, d int) {
+				if v == nil || d > 3 {
+					return
+				}
+				if mi, ok := v.(*ssa.MakeInterface); ok {
+					v = mi.X
+				}
+				v = resolveEnv(v, e)
+				switch x := v.(type) {
+				case *ssa.MakeMap:
+					if x.Referrers() == nil {
+						return
+					}
+					for _, r := range *x.Referrers() {
+						if mu, ok := r.(*ssa.MapUpdate); ok {
+							if k, ok := constString(mu.Key); ok {
+								reply[k] = rv{mu.Value, e}
+							}
+						}
+					}
+				case *ssa.UnOp:
+					// a struct literal with json tags, loaded as a whole
+					al, ok := x.X.(*ssa.Alloc)
+					if !ok || x.Op != token.MUL || al.Referrers() == nil {
+						return
+					}
+					str, ok := al.Type().Underlying().(*types.Pointer).Elem().Underlying().(*types.Struct)
+					if !ok {
+						return
+					}
+					for _, r := range *al.Referrers() {
+						fa, ok := r.(*ssa.FieldAddr)
+						if !ok || fa.Referrers() == nil || fa.Field >= str.NumFields() {
+							continue
+						}
+						tag := reflect.StructTag(str.Tag(fa.Field)).Get("json")
+						if i := strings.Index(tag, ","); i >= 0 {
+							tag = tag[:i]
+						}
+						if tag == "" || tag == "-" {
+							continue
+						}
+						for _, u := range *fa.Referrers() {
+							if st, ok := u.(*ssa.Store); ok && st.Addr == ssa.Value(fa) {
+								reply[tag] = rv{st.Val, e}
+							}
+						}
+					}
+				case *ssa.Call:
+					h := x.Call.StaticCallee()
+					if h == nil || h.Blocks == nil || !c.InModule(h) {
+						return
+					}
+					e2 := env{}
+					for k, val := range e {
+						e2[k] = val
+					}
+					for i, prm := range h.Params {
+						if i < len(x.Call.Args) {
+							e2[prm] = resolveEnv(x.Call.Args[i], e)
+						}
+					}
+					for _, r := range returnsOf(h) {
+						if len(r.Results) == 1 {
+							gather(returnedValue(r, 0), e2, d+1)
 						}
 					}
 				}
-			})
-			chk := func(key string, evv ssa.Value, what string) {
-				v := reply[key]
-				ok := v != nil && evv != nil && c.canon(v) == c.canon(evv)
+			}
+			for _, g := range append([]*ssa.Function{rco}, c.unitOf(rco)...) {
+				if inSection[g] {
+					continue
+				}
+				for _, call := range callsTo(g, wj) {
+					if len(call.Common().Args) >= 2 {
+						gather(call.Common().Args[1], c.autoEnv(g), 0)
+					}
+				}
+			}
+			// values are compared in the frame of the command: parameters of single-caller helpers are bound to their arguments
+			canonAt := func(v ssa.Value, fn *ssa.Function) string { return c.Prog.canonE(v, c.autoEnv(fn)) }
+			chk := func(key string, evv ssa.Value, ev *Emission, what string) {
+				r := reply[key]
+				ok := r.v != nil && evv != nil && c.Prog.canonE(r.v, r.e) == canonAt(evv, ev.Fn)
 				c.check(ok, c.Name(rco), "claim-reply|"+key, c.FnPos(rco), "reply["+key+"] is the committed "+what, "the claim reply's "+key+" is not the value committed in the "+what+": the agent is told it won something the store does not record")
 			}
-			chk("id", claimEv.Fields["ID"], "claim event's ID")
-			chk("agent_id", claimEv.Fields["AgentID"], "claim event's AgentID")
-			chk("state", stateEv.Fields["NewState"], "state event's NewState")
-			chk("claimed_at", claimEv.Fields["TS"], "claim event's TS")
-			c.check(c.canon(claimEv.Fields["ID"]) == c.canon(stateEv.Fields["ID"]), c.Name(cb), "claim-reply|same-task", c.Pos(claimEv.Call.Pos()), "claim and state events name the same task", "the claim event and the state event name different tasks")
+			chk("id", claimEv.Fields["ID"], claimEv, "claim event's ID")
+			chk("agent_id", claimEv.Fields["AgentID"], claimEv, "claim event's AgentID")
+			chk("state", stateEv.Fields["NewState"], stateEv, "state event's NewState")
+			chk("claimed_at", claimEv.Fields["TS"], claimEv, "claim event's TS")
+			c.check(canonAt(claimEv.Fields["ID"], claimEv.Fn) == canonAt(stateEv.Fields["ID"], stateEv.Fn), c.Name(cb), "claim-reply|same-task", c.Pos(claimEv.Call.Pos()), "claim and state events name the same task", "the claim event and the state event name different tasks")
 		}
 	}
 	// --- set / claim <id>: reply read off the post-state computed under the lock
